@@ -150,13 +150,30 @@ CHECKS.append(
               "the refinement.",
          note="Trusted: rustc MIR; std sort/hash.",
          technique="static: assumption-guided CFG reachability + decision-table extraction over MIR"))
+CHECKS.append(
+    dict(id="C05", level="other", engine="E1+E3",
+         text="Order/label independence by construction: every place where order could leak is behind a sort of the very data "
+              "consumed (first-degree lines, hash-path list, final quads; the final comparator over fixed-length position "
+              "sequences), blank nodes enter first-degree hashes only as the two placeholders, first-degree hashing covers s,p,o,g, "
+              "no hash-ordered container exists in the crate, the returned identifier map is the one applied. Decides these "
+              "necessary conditions of the invariant, not its completeness (the `only if`).",
+         note="Trusted: BTreeMap ordering, std sorts, sha2.",
+         technique="static: must-pass-through (dominator) rules + constant/flow rules over MIR"))
+CHECKS.append(
+    dict(id="C06", level="other", engine="E1+E3",
+         text="The canonical N-Quads escaping table read from _cnq::nq's character switch and format template (upper-case \\uXXXX), "
+              "the safeguards' dataflow (compared only, failing with ToxicGraph), unsupported input rejected before any quad is "
+              "recorded with the closed set of error variants, and a panic audit of the canonicalisation functions. Decides these "
+              "clauses, not equality with the W3C algorithm's hashes/paths.",
+         note="Trusted: the RDF 1.2 canonical N-Quads escape table in rules/c06.py; sha2; audited panic table.",
+         technique="static: switch-table/format-template extraction + taint of safeguard reads + dominator rules + panic audit"))
 NOT_APPLICABLE = [
     dict(property_id="C17", reason="relativise/resolve inverse is an equation between runtime-computed strings "
          "(byte-offset arithmetic); no structural clause that is a genuine necessary condition without freezing the "
          "code; static analysis in reach cannot decide it"),
 ]
 # properties not yet wired in this commit are listed as not applicable *for now* by gen (see below)
-PENDING = ["C05", "C06", "C14",
+PENDING = [ "C14",
            ]
 for p in PENDING:
     if p not in [c["id"] for c in CHECKS]:
